@@ -206,6 +206,27 @@ Theorem C10_objects_id_list : forall l, Forall in_range3 l ->
   objects_object_ids l = map (fun '(k, r, v) => pack k (norm_r k r) (norm_v k v)) l.
 Proof. exact objects_object_ids_spec. Qed.
 
+(* 10b. the collection-level id functions (WayNodes, Members, Nodes, Ways, Relations, OSM):
+        the i-th id is the packed id of the i-th item, whatever its version (0 included), so it
+        decodes to exactly that kind, reference and version, and equal id lists come from equal
+        item lists *)
+Theorem C10_collection_ids : forall which l,
+  Forall in_range3 l -> Forall (fun t => is_element (fst (fst t)) = true) l ->
+  coll_element_ids which l = map pack3 (coll_order which l) /\
+  coll_feature_ids which l = map (fun '(k, r, v) => pack k r 0) (coll_order which l).
+Proof. exact coll_ids_spec. Qed.
+
+Theorem C10_collection_ids_injective : forall which l1 l2,
+  Forall in_range3 l1 -> Forall (fun t => is_element (fst (fst t)) = true) l1 ->
+  Forall in_range3 l2 -> Forall (fun t => is_element (fst (fst t)) = true) l2 ->
+  coll_element_ids which l1 = coll_element_ids which l2 -> coll_order which l1 = coll_order which l2.
+Proof. exact coll_element_ids_injective. Qed.
+
+Example C10_partially_annotated_way_witness :
+  coll_element_ids 0 [(KNode, 9, 0); (KNode, 9, 1); (KNode, 9, 2)]
+  = [pack KNode 9 0; pack KNode 9 1; pack KNode 9 2].
+Proof. vm_compute. reflexivity. Qed.
+
 (* 11. OUTSIDE the domain of the property (no guarantee of the library; what the code does):
        for every int64 reference r and every version v, for the element kinds *)
 Theorem C10_any_ref_reads_back_mod_2_40 : forall k r,
@@ -359,6 +380,8 @@ Definition C10_all_theorems :=
    C10_counts_total,
    C10_elements_id_lists,
    C10_objects_id_list,
+   C10_collection_ids,
+   C10_collection_ids_injective,
    C10_any_ref_reads_back_mod_2_40,
    C10_any_ref_clobbers_type_bits,
    C10_any_ref_sign,
